@@ -47,6 +47,8 @@ def dyn_request(case, rec, ex):
         sizes = c02.part_sizes(case, shape, case["ext"][K])
         if sizes is None or any(x <= 0 for x in sizes):
             return None                                   # occupancy above a shape level etc.: outside the modelled class
+        if sizes and K in case["decl"][e["out"]]:
+            return None                                   # static split of an output rank next to a dynamic split: not modelled
         cur = K
         for j, sz in enumerate(sizes):
             lvl = n - j
@@ -54,8 +56,8 @@ def dyn_request(case, rec, ex):
             splits.append({"K": cur, "K1": K + str(lvl), "K0": low, "size": sz})
             cur = low
         if occs:
-            if dyn is not None or K in case["decl"][e["out"]]:
-                return None
+            if dyn is not None or (K in case["decl"][e["out"]] and sizes):
+                return None                               # static split of an output rank above the occupancy levels: not modelled
             dyn = dict(root=K, top=cur, occs=occs)
     if dyn is None:
         return None
@@ -63,6 +65,10 @@ def dyn_request(case, rec, ex):
     names = [K + str(l) for l in range(nocc, -1, -1)]          # K<nocc> ... K0
     if any(x not in lo for x in names):
         return None
+    if K in case["decl"][e["out"]]:
+        lo_i = [lo.index(x) for x in names]
+        if any(r in lo[lo_i[0]:lo_i[-1]] and r not in names for r in case["decl"][e["out"]]):
+            return None                                   # another output rank looped between the levels of a partitioned output rank: key order differs, not modelled
     # loop order after the static splits: the dynamically split rank whole, at the position of its top level
     loop1 = [dyn["top"] if r == names[0] else r for r in lo if r not in names[1:]]
     levels = []
@@ -182,7 +188,8 @@ def run(ctx):
     recs2 = pool.collect(ctx, [dict(gen="g3", count=30 * k, modes=["plain"], nexec=n, opts={"variant": "occ"}),
                                dict(gen="g3", count=20 * k, modes=["plain"], nexec=n, opts={"variant": "occ_under_shape"}),
                                dict(gen="g3", count=20 * k, modes=["plain"], nexec=n, opts={"variant": "occ2"}),
-                               dict(gen="g3", count=20 * k, modes=["plain"], nexec=n, opts={"variant": "flatten"})])
+                               dict(gen="g3", count=20 * k, modes=["plain"], nexec=n, opts={"variant": "flatten"}),
+                               dict(gen="g3", count=20 * k, modes=["plain"], nexec=n, opts={"variant": "occ_out"})])
     c02.check_records(ctx, recs2, need_reference=False)
     check_model(ctx, recs + recs2)
 
